@@ -20,6 +20,113 @@ ASSUMPTIONS = ["struct semantics: '<' means little endian without padding"]
 SYM = "ebpfcat.ethercat.EtherCat.roundtrip"
 
 
+def codec(chk, repo, f):
+    """R13.6: what roundtrip() puts on the wire and what it hands back, by
+    abstract execution on a family of argument lists (sa/evalx.py; the
+    future is a stand-in that is 'answered' with a response of the
+    request's length): payload = fields packed little-endian + zeros for a
+    trailing read-only format + zeros / raw data; result = the fields
+    unpacked with the same formats (+ the raw tail).  Returns True when the
+    function is not written in the accumulated-format idiom the structural
+    rules R13.1-R13.3 know (they are skipped then)."""
+    import struct as _struct
+    chk.doc("R13.6", "request payload and decoded result, evaluated")
+    ci = repo.cls("ebpfcat.ethercat.EtherCat")
+    ecc = repo.cls("ebpfcat.ethercat.ECCmd")
+    cmds = Evaluator(repo, ci.module, ci).enum_members(ecc)
+    cmd = cmds[sorted(cmds)[0]]
+    cases = [
+        ((), None), ((), 0), ((), 5), ((), b""), ((), b"xyz"),
+        (("H",), None), (("H", 0x1234), None), (("H", 0x1234), b"ab"),
+        (("H", 7, "I", 9), None), (("HB", 7, 8, "4s"), None),
+        (("H", 7, "H"), None), (("H", 7, "H"), 3), (("B", 1, "H"), b"\x01\x02"),
+        (("I",), 4), (("H", 1, "2x", "H"), None), (("q", -5), None),
+        (("8s", b"12345678", "H"), None), (("H",), b"ab"),
+        ((), 1100), (("H", 1, "1100s"), None), (("1400s",), 2),
+    ]
+    # the same overall format, split differently into sent fields and
+    # read-only tail
+    cases += [(("H", 7, "HB"), None), (("HH", 7, 8, "B"), None),
+              (("HHB",), None), (("HHB", 1, 2, 3), None),
+              (("H", 9, "H", 10, "B"), None)]
+    bad = []
+    rows = 0
+    # one master for the whole family (a request must not depend on the
+    # requests before it), in this order and in the reverse order
+    masters = []
+    for _ in range(2):
+        try:
+            m_ = Evaluator(repo, ci.module, ci).construct(ci, ["eth0"], {})
+        except (Unknown, Raised):
+            m_ = Obj(ci, {})
+        masters.append(m_)
+    for me, (args, data) in [(masters[0], c) for c in cases] + [
+            (masters[1], c) for c in reversed(cases)]:
+        fmts = [a for a in args if isinstance(a, str)]
+        vals = [a for a in args if not isinstance(a, str)]
+        ro = args[-1] if args and isinstance(args[-1], str) else None
+        sent_f = "<" + "".join(fmts[:-1] if ro is not None else fmts)
+        try:
+            want_out = _struct.pack(sent_f, *vals)
+        except _struct.error:
+            continue
+        if ro is not None:
+            want_out += bytes(_struct.calcsize("<" + ro))
+        full_f = "<" + "".join(fmts)
+        if isinstance(data, int):
+            want_out += bytes(data)
+        elif data is not None:
+            want_out += data
+        queued = []
+        fut = Obj(None, {})
+
+        def put(item, _q=queued, _f=fut):
+            _q.append(item)
+            out_ = item[1]
+            # the bus answers with as many bytes, every one changed
+            _f.fields["__await_result__"] = bytes(
+                (b ^ 0x5a) & 0xff for b in bytes(out_))
+        me.fields["send_queue"] = Obj(None, {"put_nowait": ("hook", put)})
+        ev_ = Evaluator(repo, ci.module, ci, funcs={"Future": lambda _f=fut:
+                                                    _f})
+        rows += 1
+        tag = f"roundtrip(cmd, 3, 0x10, {', '.join(repr(a) for a in args)}" \
+              f"{', ' if args else ''}data={data!r})" + (
+                  " [family in reverse order]" if me is masters[1] else "")
+        try:
+            r = ev_.call_function(f, [me, cmd, 3, 0x10] + list(args),
+                                  {"data": data}, cls=ci)
+        except Raised as e:
+            bad.append(f"{tag}: raises {e.what[:40]}")
+            continue
+        except Unknown as e:
+            raise AnalysisError(f"{SYM}: cannot be evaluated: {e}")
+        if len(queued) != 1 or bytes(queued[0][1]) != want_out or \
+                queued[0][0] is not cmd or tuple(queued[0][2:5]) != (
+                    0, 3, 0x10) or queued[0][5] is not fut:
+            got_ = bytes(queued[0][1]).hex() if queued else None
+            bad.append(f"{tag}: queues payload {got_}, expected "
+                       f"{want_out.hex()}")
+            continue
+        resp = fut.fields["__await_result__"]
+        if data is None:
+            want_r = _struct.unpack(full_f, resp)
+        elif args:
+            size = _struct.calcsize(full_f)
+            want_r = _struct.unpack(full_f, resp[:size]) + (resp[size:],)
+        else:
+            want_r = resp
+        if r != want_r:
+            bad.append(f"{tag}: returns {r!r}, expected {want_r!r}")
+    chk.floor("R13.6", "argument lists evaluated", rows, 15)
+    chk.ob("R13.6", SYM, "the payload is the packed fields, the zeros of a "
+           "trailing read-only format and the raw data; the result is "
+           "decoded with the same formats", not bad, f,
+           "; ".join(bad[:2]) or f"{rows} argument lists (no fields, fields, "
+           f"read-only tail, integer / empty / raw data, padding formats)")
+    return not bad
+
+
 def run(chk, repo):
     chk.doc("R13.1", "prefix discipline of all formats in roundtrip")
     chk.doc("R13.2", "no negated-length slice bound; head/tail split from "
@@ -33,6 +140,39 @@ def run(chk, repo):
                   "result shape) no longer describe what callers get")
     f = repo.func(SYM)
     chk.analysed(SYM)
+    if not codec(chk, repo, f):
+        # the codec does not evaluate correctly (reported above): the
+        # structural rules, written for the accumulated-format idiom, say
+        # where.  When it does they would only repeat that - or stumble
+        # over another spelling of the same thing.
+        structural(chk, repo, f)
+    from . import c11
+    chk.doc("R13.4", "datagram header carries the payload length "
+                     "(Packet.assemble: shared with C11 R11.3)")
+    c11.assemble_rules(chk, repo, "R13.4")
+    # --- R13.2 generalised: every slice in ethercat.py
+    m = repo.module("ebpfcat.ethercat")
+    n = 0
+    for s in ast.walk(m.tree):
+        if isinstance(s, ast.Subscript) and isinstance(s.slice, ast.Slice):
+            for bound, nm in ((s.slice.lower, "lower"),
+                              (s.slice.upper, "upper")):
+                if bound is None:
+                    continue
+                n += 1
+                neg = isinstance(bound, ast.UnaryOp) and isinstance(
+                    bound.op, ast.USub) and not isinstance(
+                        bound.operand, ast.Constant)
+                if neg:
+                    chk.ob("R13.2", func_qual(repo, s), f"slice bound "
+                           f"`{unparse(bound)}` of `{unparse(s)[:40]}`",
+                           False, s, "a negated length as a slice bound "
+                           "breaks when the length is 0")
+    chk.ob("R13.2", "ebpfcat.ethercat", f"{n} slice bounds scanned, none is "
+           f"a negated variable length", True, m.tree, "exhaustive scan")
+
+
+def structural(chk, repo, f):
     cfg = CFG(f)
     rd = ReachingDefs(cfg)
     # --- R13.1
@@ -216,10 +356,6 @@ def run(chk, repo):
            "no raw data requested: the unpacked fields; raw data (even "
            "empty or 0 bytes) and formats: fields plus the raw tail; raw "
            "data only: the bytes")
-    from . import c11
-    chk.doc("R13.4", "datagram header carries the payload length "
-                     "(Packet.assemble: shared with C11 R11.3)")
-    c11.assemble_rules(chk, repo, "R13.4")
     # fmt reaching the decode is the fully extended one
     for r in rets:
         node = cfg.nodes_of(r)[0]
@@ -233,23 +369,3 @@ def run(chk, repo):
             chk.ob("R13.3", SYM, f"fmt at `{unparse(r)[:40]}` includes the "
                    f"trailing format", "aug" in kinds and "assign" in kinds,
                    r, f"reaching definitions of fmt: {kinds}")
-    # --- R13.2 generalised: every slice in ethercat.py
-    m = repo.module("ebpfcat.ethercat")
-    n = 0
-    for s in ast.walk(m.tree):
-        if isinstance(s, ast.Subscript) and isinstance(s.slice, ast.Slice):
-            for bound, nm in ((s.slice.lower, "lower"),
-                              (s.slice.upper, "upper")):
-                if bound is None:
-                    continue
-                n += 1
-                neg = isinstance(bound, ast.UnaryOp) and isinstance(
-                    bound.op, ast.USub) and not isinstance(
-                        bound.operand, ast.Constant)
-                if neg:
-                    chk.ob("R13.2", func_qual(repo, s), f"slice bound "
-                           f"`{unparse(bound)}` of `{unparse(s)[:40]}`",
-                           False, s, "a negated length as a slice bound "
-                           "breaks when the length is 0")
-    chk.ob("R13.2", "ebpfcat.ethercat", f"{n} slice bounds scanned, none is "
-           f"a negated variable length", True, m.tree, "exhaustive scan")
